@@ -20,7 +20,7 @@ FIELD_OF = {1: "best_block", 2: "newest_valid_block", 3: "ancestor_block",
             5: "ancestor_receipts_root", 0x81: "updating.best_block",
             0x82: "updating.newest_valid_block", 0x84: "updating.next_expected_block"}
 NETWORKS = {1: "mainnet", 2: "testnet", 3: "regtest"}
-REQUIRED_LABELS = {t: ["history", "reconnect", "hb-fault", "cmd:getPubKey", "cmd:blockchainState", "cmd:blockchainParameters",
+REQUIRED_LABELS = {t: ["history", "reconnect", "hb-fault", "v1", "cmd:getPubKey", "cmd:blockchainState", "cmd:blockchainParameters",
                        "cmd:signerHeartbeat", "cmd:uiHeartbeat", "uihb:ok", "uihb:device-error",
                        "diff:0", "diff:max", "sig:0x31"] for t in ("quick", "thorough")}
 
@@ -97,7 +97,8 @@ def cases(draw, tier):
             nxt = draw(one_query_of(tier, first["cmd"]))
         nxt["reconnect"] = draw(st.booleans())
         steps.append(nxt)
-    return {"steps": steps}
+    v1 = all(q["cmd"] == "getPubKey" for q in steps) and draw(st.booleans())
+    return {"steps": steps, "v1": v1}
 
 
 @st.composite
@@ -122,6 +123,7 @@ def run_case(c):
             p._comm_issue = True
             labels.append("reconnect")
         w.mode_error = False
+        q = dict(q, v1=bool(c.get("v1")))
         out, p = run_query(q, w, p)
         labels.extend(out)
         if q["cmd"] == "uiHeartbeat" and (q["exit_modes"] != [UIHB, SIGNER] or
@@ -132,8 +134,8 @@ def run_case(c):
 
 def run_query(c, w, p):
     cmd = c["cmd"]
-    labels = ["cmd:" + cmd]
-    req = {"command": cmd, "version": 5}
+    labels = ["cmd:" + cmd] + (["v1"] if c.get("v1") else [])
+    req = {"command": cmd, "version": 1 if c.get("v1") else 5}
     if cmd == "getPubKey":
         w.pubkeys = {refs.path_bin(p): k for p, k in zip(refs.ALL_PATHS, c["keys"])}
         req["keyId"] = c["path"]
@@ -169,7 +171,7 @@ def run_query(c, w, p):
             w.hb_fault = (ui, c["hb_fault"][0], c["hb_fault"][1])
             labels.append("hb-fault")
     if p is None:
-        p = mw.stack(w)
+        p = mw.stack(w, v1=bool(c.get("v1")))
     if cmd == "uiHeartbeat" and c.get("mode_error_after"):
         # GET_MODE starts failing after the n-th exit (device in an unknown state)
         n_target = c["mode_error_after"]
